@@ -44,6 +44,7 @@ FAMS = {
     "two_overlap": [(("a", "b"), "I"), (("b", "c"), "I")],
     "twice": [(("a", "b"), "I"), (("a", "b"), "P"), (("c",), "I")],
     "oneway": [(("a",), "I"), (("c",), "T")],
+    "partial": [(("a", "b"), "R"), (("c",), "I")],
 }
 
 
@@ -57,7 +58,8 @@ def configs(tier, seed):
                     continue
                 cfgs.append(dict(name="weights:%s:%s:K%d" % (pub, fam, k), kind="weights", pub=pub, fam=fam, K=k, total="given", cost=3 ** k,
                                  timeout=900, core=k <= 2))
-            cfgs.append(dict(name="weights:%s:%s:K1:omitted" % (pub, fam), kind="weights", pub=pub, fam=fam, K=1, total="omitted", cost=4))
+            ko = 1 if (tier == "thorough" and fam != "twice") else 0
+            cfgs.append(dict(name="weights:%s:%s:K%d:omitted" % (pub, fam, ko), kind="weights", pub=pub, fam=fam, K=ko, total="omitted", cost=4))
             cfgs.append(dict(name="objective:%s:%s" % (pub, fam), kind="objective", pub=pub, fam=fam, cost=1))
         cfgs.append(dict(name="history:%s" % pub, kind="history", pub=pub, K=0 if tier == "quick" else 1, cost=6))
     return cfgs
@@ -71,6 +73,25 @@ def prep(V):
     if V.symbolic and pi.__dict__.get("lsmr") is not shims.lsmr_by_contract:
         shims.shadow(pi, lsmr=shims.lsmr_by_contract)
     return mbi, pi
+
+
+def oracle_total(V, ms):
+    """independent statement of the estimated total: inverse-variance weighted combination over the measurements whose query rows span
+    the ones vector (exact rational pseudo-inverse), at least 1"""
+    from .c09_total import exact_v, _max1
+    num, den, usable = 0, 0, 0
+    for Q, y, sg, proj in ms:
+        v, ok = exact_v(np.asarray(Q, dtype=float))
+        if not ok:
+            continue
+        usable += 1
+        est = V.sum([v[i] * y[i] for i in range(len(v))])
+        var = sg * sg * sum(x * x for x in v)
+        num = num + est / var
+        den = den + 1 / var
+    if usable == 0:
+        return 1
+    return _max1(V, num / den)
 
 
 def public(mbi, name):
@@ -101,7 +122,10 @@ def scenario_for(cfg):
             eng = mbi.PublicInference(pub)
             out = eng.estimate(ms, total=N)
             if N is None:
+                # two cheap obligations instead of one expensive one: the weights sum to what the code's estimator returns for these
+                # measurements, and that value is the independently stated estimate
                 N = pi.estimate_total(ms)
+                T.append(("estimated total is the stated inverse-variance combination", N, oracle_total(V, ms)))
             weights_checks(V, T, "", out, pub, N)
         elif cfg["kind"] == "objective":
             ms = estim.measurements(V, dom, FAMS[cfg["fam"]], sparse_=False)
@@ -129,6 +153,7 @@ def scenario_for(cfg):
                 ms = estim.measurements(V, dom, FAMS[fam], tag="c%d_" % k, sparse_=False)
                 out = eng.estimate(ms, total=None)
                 N = pi.estimate_total(ms)
+                T.append(("call%d:estimated total is the stated inverse-variance combination" % k, N, oracle_total(V, ms)))
                 weights_checks(V, T, "call%d:" % k, out, pub, N)
         return T
     return scenario
